@@ -7,7 +7,7 @@ import json, os, re, subprocess, sys, time, random, hashlib, pathlib
 
 sys.dont_write_bytecode = True
 VERIF = "/verif"
-REPO = "/repo"
+REPO = os.environ.get("VERIF_REPO", "/repo")   # VERIF_REPO: scratch copy for mutation self-tests only
 PY = "/venv/bin/python"
 WORK = os.path.join(VERIF, ".work")
 os.makedirs(WORK, exist_ok=True)
